@@ -328,7 +328,10 @@ pub struct Outcome {
 
 fn err_kind(e: &PaintError) -> String {
     match e {
-        PaintError::ParseError(r) => format!("ParseError({:?})", r).split('{').next().unwrap_or("ParseError").trim().to_string(),
+        PaintError::ParseError(r) => {
+            let d = format!("{:?}", r);
+            format!("ParseError({})", d.split(|c: char| !c.is_alphanumeric()).next().unwrap_or(""))
+        }
         PaintError::GlyphNotFound(_) => "GlyphNotFound".into(),
         PaintError::PaintCycleDetected => "PaintCycleDetected".into(),
         PaintError::DepthLimitExceeded => "DepthLimitExceeded".into(),
@@ -450,10 +453,9 @@ pub fn judge(ctx: &mut Ctx, o: &Outcome, font: &[u8], gid: u32, coords: &[i16], 
         }
     }
     ctx.count("visits_total", o.visits);
-    if o.mode_mismatch > 0 {
-        ctx.count("pop_layer_mode_differs_from_push(not judged)", o.mode_mismatch);
+    if o.mode_mismatch > 0 && o.ok {
+        ctx.count("ok_stream:pop_layer_mode_differs_from_push(not judged)", o.mode_mismatch);
     }
-    ctx.distinct("event_streams", o.digest);
     let hist = match o.visits {
         0 => "visits:0",
         1..=9 => "visits:1-9",
@@ -483,7 +485,9 @@ pub fn judge(ctx: &mut Ctx, o: &Outcome, font: &[u8], gid: u32, coords: &[i16], 
     }
     if o.max_depth > MAX_DEPTH {
         ctx.violation(&format!("depth-limit-exceeded:{}:depth={}", fam, o.max_depth), detail(json!({"limit": MAX_DEPTH})), Some(font));
-    } else if o.max_depth == MAX_DEPTH && o.ok {
+    } else if o.max_depth == MAX_DEPTH && o.ok && policy.cache == Cache::Unimplemented {
+        // (with a caching client the fill-glyph optimisation pass may run into the limit inside a
+        // sub graph that the real pass then takes from the client's cache: that error is dropped)
         ctx.violation(&format!("too-deep-graph-painted-ok:{}", fam), detail(json!({"limit": MAX_DEPTH})), Some(font));
     }
     if let (Some(ub), false) = (exp.visits_ub, o.aborted) {
@@ -510,10 +514,6 @@ pub fn judge(ctx: &mut Ctx, o: &Outcome, font: &[u8], gid: u32, coords: &[i16], 
         let mut d = Digest::new();
         d.u64(fnv64(font));
         d.u32(gid);
-        for c in coords {
-            d.u32(*c as u16 as u32);
-        }
-        d.str(&policy.code());
         ctx.nontrivial(d.finish());
         if o.ok {
             ctx.count("nontrivial_ok_balanced", 1);
@@ -573,12 +573,6 @@ fn run_model_case(ctx: &mut Ctx, family: &str, idx: u64, m: &Model, rng: &mut Rn
                         } else if a.dangling {
                             exp.must_err = Some("dangling-reference".into());
                         }
-                    }
-                }
-                if policy.cache == Cache::ErrAll && an.colr_glyph_edges_to_existing && exp.must_err.is_none() && !an.cut && !an.cyclic {
-                    // every existing ColrGlyph edge is reached (nothing else fails) and the client errs
-                    if an.longest_path < MAX_DEPTH + 1 && !an.dangling {
-                        exp.must_err = Some("client-cache-callback-failed".into());
                     }
                 }
             }
@@ -824,7 +818,7 @@ fn mutant_pass(ctx: &mut Ctx, fonts: &[vf_core::CorpusFont], item0: &mut usize, 
 pub fn run(ctx: &mut Ctx, _args: &Args) {
     ctx.policy = PanicPolicy::Totality;
     ctx.rule = "a ColorGlyph::paint call on a COLRv1 glyph whose traversal entered >= 3 paint nodes and issued >= 1 push callback, or which returned an \
-                error after entering >= 2 nodes; digest = (font bytes hash, glyph id, normalized coords, painter policy)"
+                error after entering >= 2 nodes; digest = (font bytes hash, glyph id) (locations and painter policies are not counted as distinct cases)"
         .into();
     ctx.assumptions = vec![
         "the painter's own callbacks terminate and do not re-enter paint".into(),
@@ -840,7 +834,7 @@ pub fn run(ctx: &mut Ctx, _args: &Args) {
     }
 
     // ---- 2. generated graphs
-    let n_random = ctx.tier.pick(6_000usize, 120_000);
+    let n_random = ctx.tier.pick(160_000usize, 2_400_000);
     for i in 0..n_random {
         let it = item;
         item += 1;
@@ -875,7 +869,7 @@ pub fn run(ctx: &mut Ctx, _args: &Args) {
     let fonts = corpus_colr_fonts();
     ctx.extra.insert("corpus_colr_font_count".into(), json!(fonts.len()));
     corpus_pass(ctx, &fonts, &mut item);
-    let per_font = ctx.tier.pick(3_000usize, 60_000);
+    let per_font = ctx.tier.pick(48_000usize, 640_000);
     mutant_pass(ctx, &fonts, &mut item, per_font);
 }
 
